@@ -2067,6 +2067,18 @@ type parsedSigInfo struct {
 	parsed          bool
 }
 
+// popMultiSigCount pops the number of public keys or of signatures of a
+// multisig.  Unlike the other numeric operands these counts are limited to 4
+// bytes after genesis as well.
+func popMultiSigCount(t *thread) (*scriptNumber, error) {
+	so, err := t.dstack.PopByteArray()
+	if err != nil {
+		return nil, err
+	}
+
+	return makeScriptNumber(so, MaxScriptNumberLengthBeforeGenesis, t.dstack.verifyMinimalData, t.afterGenesis)
+}
+
 // opcodeCheckMultiSig treats the top item on the stack as an integer number of
 // public keys, followed by that many entries as raw data representing the public
 // keys, followed by the integer number of signatures, followed by that many
@@ -2087,7 +2099,7 @@ type parsedSigInfo struct {
 // Stack transformation:
 // [... dummy [sig ...] numsigs [pubkey ...] numpubkeys] -> [... bool]
 func opcodeCheckMultiSig(op *ParsedOpcode, t *thread) error {
-	numKeys, err := t.dstack.PopInt()
+	numKeys, err := popMultiSigCount(t)
 	if err != nil {
 		return err
 	}
@@ -2117,7 +2129,7 @@ func opcodeCheckMultiSig(op *ParsedOpcode, t *thread) error {
 		pubKeys = append(pubKeys, pubKey)
 	}
 
-	numSigs, err := t.dstack.PopInt()
+	numSigs, err := popMultiSigCount(t)
 	if err != nil {
 		return err
 	}
